@@ -82,7 +82,7 @@ impl<'a> Ctx<'a> {
         for (name, b) in [("tailcall", &tc), ("state_machine", &sm)] {
             let r = to_run(b);
             match self.prop {
-                "C01" | "C05" => {
+                "C01" | "C05" | "C09" => {
                     if toks(&r) != toks(&exp) {
                         self.complain("TOKENS", input, format!("[{name}] tokens {:?}, reference {:?}", r.items, exp.items), json!({}));
                     }
